@@ -4,6 +4,7 @@
 mod c09;
 mod c10;
 mod common;
+mod mock;
 
 use common::*;
 use std::path::{Path, PathBuf};
